@@ -694,7 +694,7 @@ def discharge(ctx, site, ledger):
     return None
 
 
-@rule("PANIC", floor=150)
+@rule("PANIC", floor=150, floor_release=90)
 def panic_rule(ctx):
     """Every panic-capable site reachable from the inbound roots (RxPacketStream::poll_next, connect,
     authorize, run) is discharged by a dominating guard, a direct length comparison, constant folding,
